@@ -23,3 +23,11 @@ pub(crate) mod testutil;
 pub(crate) mod types;
 pub mod value;
 pub mod value_util;
+
+/// Re-exports of crate-private items for an external verification harness.
+/// Compiled only with `RUSTFLAGS="--cfg cambrian_verif"`.
+#[cfg(cambrian_verif)]
+pub mod verif_hooks {
+    pub use crate::meta_adapt::{create_exploratory, mutate as meta_mutate};
+    pub use crate::selection::{Selection, SelectionImpl};
+}
